@@ -111,6 +111,11 @@ package rux
 //@   ensures bound: c.Req == r && c.writer.Writer == w
 //@   ensures[C08] writer_inv: freshWriter(w) ==> wInv(&c.writer)
 //
+//@ func (*Context).Copy [C10]
+//@   ensures independent: result != nil && fresh(result) && result.Resp == iface(&result.writer, *responseWriter) && result.writer.Writer == nil
+//@   ensures detached_from_chain: result.index == 63 && len(result.handlers) == 0
+//@   ensures original_untouched: c.index == old(c.index) && c.Resp == old(c.Resp) && c.writer.Writer == old(c.writer.Writer)
+//
 //@ func (*Context).SetStatus [C08]
 //@   requires wInv(&c.writer)
 //@   modifies c.writer.status
@@ -304,6 +309,14 @@ package rux
 //@   requires rw != nil && held(rw) == 1
 //@   modifies held(rw)
 //@   ensures held(rw) == 0
+//
+//@ guarded cachedRoutes.hashMap by lock
+//@ extern (*container/list.List).Front(l) (e)
+//@   requires l != nil
+//@   requires[C03] locked: guard(l) != nil ==> held(guard(l)) >= 1
+//@   pure
+//@   ensures ln(l) <= 0 ==> e == nil
+//@   ensures ln(l) > 0 ==> e != nil && lmem(l, e) && (forall x ref :: lmem(l, x) ==> rank(x) <= rank(e))
 //
 //@ spec node(e *list.Element) *cacheNode = cast(e.Value, *cacheNode)
 //@ spec view(c *cachedRoutes, k string) *Route = node(c.hashMap[k]).Value
@@ -544,6 +557,8 @@ package rux
 // the dispatcher's postcondition name the route it dispatched to). hookCalls(c): OnPanic invocations for c.
 //@ ghost lastRoute(ref) ref
 //@ ghost lastAlm(ref) int
+//@ ghost lastPath(ref) string
+//@ ghost lastMethod(ref) string
 //@ ghost hookCalls(ref) int
 //
 //@ spec routeOK(rt *Route) bool = rt.handler != nil && len(rt.handlers) < 63
@@ -553,12 +568,18 @@ package rux
 //@   pure
 //@   ensures s == uf("escapedPath", string, u)
 //
+// owned(c): the current request exclusively owns the pooled context c (R-pool: Get hands out a context
+// nobody else holds; Put gives the ownership back, so a second Put of the same context is an error).
+//@ ghost owned(ref) bool
 //@ extern (*sync.Pool).Get(p) (x)
-//@   modifies allfields(Context)
-//@   ensures hastype(x, *Context) && cast(x, *Context) != nil
+//@   modifies allfields(Context), owned(_)
+//@   ensures hastype(x, *Context) && cast(x, *Context) != nil && owned(cast(x, *Context))
+//@   ensures forall c ref :: c != refof(x) ==> owned(c) == old(owned(c))
 //@   ensures forall c *Context :: c != cast(x, *Context) && allocated(c) ==> c.index == old(c.index)
 //@ extern (*sync.Pool).Put(p, x)
-//@   pure
+//@   requires[C03, C10] released_once: owned(refof(x))
+//@   modifies owned(refof(x))
+//@   ensures !owned(refof(x))
 //
 //@ func (*Context).Set [C09, C03]
 //@   modifies c.data, entries(c.data)
@@ -569,8 +590,8 @@ package rux
 // Summary of route lookup used by the dispatcher (refined by the table contracts of C01/C06/C07).
 //@ trusted (*Router).QuickMatch(r, method, path) (route, ps, alm)
 //@   modifies held(r.cachedRoutes.lock), entries(r.cachedRoutes.hashMap), lmem(r.cachedRoutes.list, _), rank(_), lclock(r.cachedRoutes.list), ln(r.cachedRoutes.list), lback(r.cachedRoutes.list)
-//@   modifies lastRoute(r), lastAlm(r)
-//@   ensures lastRoute(r) == route && lastAlm(r) == len(alm)
+//@   modifies lastRoute(r), lastAlm(r), lastPath(r), lastMethod(r)
+//@   ensures lastRoute(r) == route && lastAlm(r) == len(alm) && lastPath(r) == path && lastMethod(r) == method
 //@   ensures route != nil ==> routeOK(route) && isReg(route) && len(alm) == 0
 //@   ensures route == nil ==> ps == nil
 //
@@ -608,12 +629,12 @@ package rux
 //@     && (forall rt *Route :: isReg(rt) ==> withinLimit(r, len(rt.handlers) + 1))
 //
 //@ func (*Router).handleHTTPRequest [C03, C04, C08, C09, C10]
-//@   requires ctx != nil && pristine(ctx) && wInv(&ctx.writer) && reqOK(ctx) && started(ctx) == 0 && !aborted(ctx) && hookCalls(ctx) == 0
+//@   requires ctx != nil && pristine(ctx) && wInv(&ctx.writer) && reqOK(ctx) && started(ctx) == 0 && !aborted(ctx) && hookCalls(ctx) == 0 && owned(ctx)
 //@   requires within_limit: fallbackChains(r)
 //@   modifies ctx.index, ctx.data, entries(ctx.data), ctx.Errors, ctx.Req, ctx.Resp, ctx.Params, ctx.handlers, started(ctx), aborted(ctx)
 //@   modifies ctx.writer.status, ctx.writer.length, hdrCalls(ctx.writer.Writer), hdrStatus(ctx.writer.Writer), body(ctx.writer.Writer), early(ctx.writer.Writer)
 //@   modifies held(r.cachedRoutes.lock), entries(r.cachedRoutes.hashMap), lmem(r.cachedRoutes.list, _), rank(_), lclock(r.cachedRoutes.list), ln(r.cachedRoutes.list), lback(r.cachedRoutes.list)
-//@   modifies lastRoute(r), lastAlm(r), hookCalls(ctx)
+//@   modifies lastRoute(r), lastAlm(r), lastPath(r), lastMethod(r), hookCalls(ctx)
 //@   panics r.OnPanic == nil || uf("hookPanics", bool, r.OnPanic)
 //@   ensures[C04] global_middleware_first: len(ctx.handlers) >= len(r.handlers) && (forall i int :: 0 <= i && i < len(r.handlers) ==> ctx.handlers[i] == r.handlers[i])
 //@   ensures[C04] then_route_chain: lastRoute(r) != nil ==> len(ctx.handlers) == len(r.handlers) + len(cast(lastRoute(r), *Route).handlers) + 1
@@ -626,12 +647,14 @@ package rux
 //@           && (forall i int :: 0 <= i && i < len(r.noRoute) ==> ctx.handlers[len(r.handlers) + i] == r.noRoute[i]))
 //@       && (len(r.noRoute) == 0 ==> len(ctx.handlers) == len(r.handlers) + 1 && ctx.handlers[len(r.handlers)] == internal404Handler)
 //@   ensures[C04] everyone_ran_unless_aborted_or_panicked: hookCalls(ctx) == 0 ==> ctx.index >= 63 || started(ctx) == len(ctx.handlers)
+//@   ensures[C03, C10] still_owned: owned(ctx)
+//@   ensures[C11] path_source: lastPath(r) == (r.useEncodedPath ? uf("escapedPath", string, old(ctx.Req.URL)) : old(ctx.Req.URL.Path)) && lastMethod(r) == old(ctx.Req.Method)
 //@   ensures[C09] hook_at_most_once: hookCalls(ctx) <= 1 && (r.OnPanic == nil ==> hookCalls(ctx) == 0)
 //@   ensures[C08, C09] committed_once: wInv(&ctx.writer) && ctx.writer.length >= 0 && hdrCalls(ctx.writer.Writer) == 1
 
 //@ func (*Router).ServeHTTP [C03, C08, C09, C10]
 //@   requires freshWriter(res) && req != nil && req.URL != nil && fallbackChains(r)
-//@   modifies allfields(Context), allelems([]error), allelems([]HandlerFunc), started(_), aborted(_), hookCalls(_), lastRoute(r), lastAlm(r)
+//@   modifies allfields(Context), allelems([]error), allelems([]HandlerFunc), started(_), aborted(_), hookCalls(_), owned(_), lastRoute(r), lastAlm(r), lastPath(r), lastMethod(r)
 //@   modifies hdrCalls(res), hdrStatus(res), body(res), early(res), allentries(M)
 //@   modifies held(r.cachedRoutes.lock), entries(r.cachedRoutes.hashMap), lmem(r.cachedRoutes.list, _), rank(_), lclock(r.cachedRoutes.list), ln(r.cachedRoutes.list), lback(r.cachedRoutes.list)
 //@   panics r.OnPanic == nil || uf("hookPanics", bool, r.OnPanic)
